@@ -238,7 +238,7 @@ func c13R2(c *Ctx, rule string) {
 			okE, _ := lockHeldByClass(hE, a.writingM)
 			okS, _ := lockHeldByClass(hS, a.writingM)
 			// no unlock of writingM between them
-			unl := forwardSearch(i, func(x ssa.Instruction) bool { return x == send }, func(x ssa.Instruction) bool {
+			unl := onPathBetween(i, send, func(x ssa.Instruction) bool {
 				k, path, ok := lockOp(x)
 				return ok && k == "unlock" && len(path.Chain) > 0 && path.Chain[len(path.Chain)-1] == a.writingM
 			})
